@@ -22,6 +22,7 @@ import GE.Model.BindingMap
 import GE.Model.CssIO
 import GE.Model.TagSemJson
 import GE.Model.TagTree
+import GE.Model.Link
 /-!
 Model driver: one request per line (`op TAB field…`), one answer line per request.
 Unknown ops answer `bad-op` (never defaulted).
@@ -234,6 +235,21 @@ def step (fs : List String) : String :=
   | ["convert", sx, names] =>
     withExpr sx fun e =>
       esc (GE.SubExpr.convertScopes ((names.splitOn ",").filter (· ≠ "")) e).toSExp
+  | "link" :: path :: defs :: names :: n :: rest =>
+    -- which template each name finds from the file `path` (its own definitions `defs`, its imports as written, the other registered files)
+    let k := n.toNat!
+    let srcs := rest.take k
+    let rec pairs : List String → List (String × String)
+      | a :: b :: r => (a, b) :: pairs r
+      | _ => []
+    let files := pairs (rest.drop k)
+    let mk (p d : String) : GE.Link.File String :=
+      ⟨((d.splitOn ",").filter (· ≠ "")).map (fun nm => (nm, "[" ++ p ++ ":" ++ nm ++ "]")), "(" ++ p ++ ":main)"⟩
+    let G := fun q => (files.find? (·.1 == q)).map fun e => mk e.1 e.2
+    esc (String.join (((names.splitOn ",").filter (· ≠ "")).map fun P =>
+      match GE.Link.lookup G path (mk path defs) srcs P with
+      | some l => l
+      | none => ""))
   | "if_selector" :: scopes :: conds =>
     match conds.mapM parseCond with
     | none => "bad-cond"
